@@ -82,45 +82,54 @@ class SubopModel:
 
 
 class CancelModel:
-    """Which C-CANCELs an operation's handler must / must not see (C23)."""
+    """Which C-CANCELs an operation's handler must / must not see (C23).
+
+    Fed with the recorded history: start(msg_id) / cancel(id, window) / polled(result) / end().
+    window: "idle" (no operation in progress), "queued" (request received by the DIMSE provider, not yet
+    dispatched), "during" (the service class is running the operation)."""
 
     def __init__(self):
-        self.in_progress = None  # message ID of the operation being served
-        self.matching_arrived = False  # a cancel naming it arrived while it was in progress
-        self.reported = False  # is_cancelled has already returned True for it
-        self.others_during = 0  # cancels for other IDs received during this operation
-        self.stale_same_id = False  # a cancel with this ID arrived before the operation started
-        self.pending_ids = set()  # distinct IDs received during the operation and not yet reported
-        self.seen_before = {}  # id -> True for cancels received while no operation (or an earlier one) ran
+        self.in_progress = None
+        self.seen_earlier = set()  # IDs of every cancel received before the current operation started
+        self._reset()
+
+    def _reset(self):
+        self.matching_arrived = False  # a cancel naming the operation arrived while it was in progress
+        self.reported = False  # is_cancelled has already been True for it
+        self.unreported = []  # (window, distinct IDs pending before it arrived) of matching cancels not yet reported
+        self.others_during = 0
+        self.stale_same_id = False
+        self.pending = set()  # distinct IDs received while the service class runs and not reported (label only)
+        self.max_pending = 0
+        self.received = set()
+        self.polls = 0
+        self.polled_before_match = False
 
     def start(self, msg_id):
+        self._reset()
         self.in_progress = msg_id
-        self.matching_arrived = False
-        self.reported = False
-        self.others_during = 0
-        self.pending_ids = set()
-        self.stale_same_id = bool(self.seen_before.get(msg_id))
+        self.stale_same_id = msg_id in self.seen_earlier
 
     def end(self):
-        # everything received so far is "before" any later operation
-        for i in self.pending_ids:
-            self.seen_before[i] = True
-        if self.matching_arrived:
-            self.seen_before[self.in_progress] = True
+        self.seen_earlier |= self.received
         self.in_progress = None
 
-    def cancel(self, msg_id):
-        """-> number of distinct unreported cancel IDs pending before this one arrived (label only)."""
-        before = len(self.pending_ids)
+    def cancel(self, msg_id, window):
         if self.in_progress is None:
-            self.seen_before[msg_id] = True
-            return before
-        self.pending_ids.add(msg_id)
+            self.seen_earlier.add(msg_id)
+            return
+        self.received.add(msg_id)
+        before = len(self.pending)
+        if window == "during":
+            self.pending.add(msg_id)
+            self.max_pending = max(self.max_pending, len(self.pending))
         if msg_id == self.in_progress:
             self.matching_arrived = True
+            self.unreported.append((window, before))
+            if self.polls:
+                self.polled_before_match = True
         else:
             self.others_during += 1
-        return before
 
     def expect_poll(self):
         """-> True (must report), False (must not report) or None (unconstrained: already reported once)."""
@@ -129,3 +138,22 @@ class CancelModel:
         if not self.reported:
             return True
         return None
+
+    def polled(self, result):
+        self.polls += 1
+        if result:
+            self.reported = True
+            self.unreported = []
+            self.pending.discard(self.in_progress)
+
+    def miss_cause(self):
+        """Structural label for a matching cancel that was not reported."""
+        during = [b for w, b in self.unreported if w == "during"]
+        if not during:
+            return "received-before-dispatch"
+        if all(b >= 10 for b in during):
+            return "in-progress:>=10-other-cancels-pending"
+        return "in-progress:<10-cancels-pending"
+
+    def describe(self):
+        return ", ".join(f"{w} with {b} distinct cancel IDs pending" for w, b in self.unreported)
